@@ -28,7 +28,7 @@ func init() {
 		Explanation: "Decides necessary guards of 'corrupt packs never yield wrong objects': (exact-inflate) every copy into a boundedWriter (pack entry inflated against its declared size) keeps the byte count and compares it with the " +
 			"declared size, so both overrun (boundedWriter) and underrun are rejected; boundedWriter itself still rejects an overrun; (footer-checksum) packFooter reaches its success state only across the checksum-equal edge and " +
 			"Parser.Parse returns a hash only after scanner.Error() was consulted; (ofs-base) OffsetReference is assigned only after ValidateOFSDeltaBase succeeded and that predicate keeps both bounds; " +
-			"(chain-depth) processDelta checks the chain depth before resolving content and the bound is 4095. Not decided: rejection parity with git index-pack for every mutation.",
+			"(chain-depth) processDelta checks the chain depth before resolving content and the bound is 4095. The exact-inflate comparison is on every path: no successful return is reachable from the inflate without crossing the fact 'count == declared size', whatever the entry type. Not decided: rejection parity with git index-pack for every mutation.",
 		Assumptions: []string{"compress/zlib reports truncated streams as errors"},
 		Run:         runC09,
 	})
